@@ -17,7 +17,8 @@ THEOREMS = [
     "SC.insert_commit_exact",
     "SC.liveFrom_extra", "SC.mem_scan", "SC.scan?_filter", "SC.applyOps_dvOps", "SC.mem_deadOf_push",
     "SC.delete_commit_exact",
-    "SC.applyOps_dels_eq", "SC.compaction_commit_exact", "SC.compaction_fresh_exact",
+    "SC.applyOps_dels_eq", "SC.applyOps_append", "SC.applyOps_delDvs", "SC.dvDels_eq",
+    "SC.rows_after_compaction", "SC.compaction_commit_exact", "SC.compaction_fresh_exact",
     "SC.sortKeys_perm", "SC.scan?_perm", "SC.compaction_rows_perm",
     "SC.applyOps_dels_other", "SC.compaction_empty_commit_exact",
     # the bundle: insert + delete + compaction on any number of tables, only FreshSnapshot assumed
